@@ -1327,8 +1327,12 @@ func (e *lexEnv) readerCase(ctx *Ctx, c *lexCodec, doc []byte, h lexHints, origi
 	d := lexDecode(ctx, c, doc, h, line)
 	outcome := strings.SplitN(d.ans, " ", 2)[0]
 	// C04 speaks of the library's own documents and of conformant documents produced elsewhere (own, hand-written
-	// forms); what the readers make of MUTATED documents is C02 / C18 business
-	props := "C02,C18"
+	// forms); what the readers make of MUTATED documents is C02 business, and C18 business only when accepted
+	// (a rejected document is not C18-relevant: a stricter reader leaves every fixed point alone)
+	props := "C02"
+	if outcome == "ok" && origin == "mutated" {
+		props = "C02,C18"
+	}
 	if outcome == "ok" && origin != "mutated" {
 		props = "C04,C18,C02"
 	}
